@@ -379,12 +379,13 @@ def build_world_and_probes(rng, blocks, headers, unsized=False, nprobes=6, impl_
     return probes, world
 
 
-def gen_targs_case(rng, variant=None):
+def gen_targs_case(rng, variant=None, idx=None):
     """traits with lifetime / type / const parameters (bounds, defaults, ?Sized): blocks for
     generic and for concrete instantiations, families per instantiation"""
     variant = variant or rng.choice(['generic', 'concrete', 'lifetime', 'const', 'bounded', 'unsized_arg', 'mixed', 'default_omitted', 'nested_unsized', 'unsized_where', 'unsized_nested_arg', 'nested_arg', 'reflexive_mix', 'bounded_composite', 'repeated_arg', 'nested_arg_wild'])
     tr = rng.choice(['D', 'D2'])
     trait_where = ''
+    pk = Picker(rng, idx)
     def fam(trait_args, self_fmt, used, groups, tag0, extra_bounds=(), relaxed=None):
         out = []
         for i, g in enumerate(groups):
@@ -430,8 +431,8 @@ def gen_targs_case(rng, variant=None):
         targs_pool = ['X0', 'str', '[u8]']
     elif variant == 'bounded_composite':
         # a bounded trait parameter given a type built from a parameter of the block
-        tg = rng.choice(['<P: Tr0>', '<P: ?Sized + Tr0>'])
-        wrap = rng.choice(['Vec<{T1}>', 'Box<{T1}>', '({T1},)'])
+        tg = pk.choice(['<P: ?Sized + Tr0>', '<P: Tr0>'])
+        wrap = pk.choice(['({T1},)', 'Vec<{T1}>', 'Box<{T1}>', '&\'static {T1}', '[{T1}; 2]'])
         blocks = fam(wrap, '{T0}', ['T0', 'T1'], rng.sample(GROUPS, 2), 0, extra_bounds=[(wrap, 'Tr0', {})])
         extra_world = 'impl Tr0 for %s {}\n' % wrap.format(T1='X0')
         targs_pool = [wrap.format(T1='X0')]
@@ -732,7 +733,7 @@ def gen_case(rng, kind, idx=None):
     if kind == 'targs':
         return gen_targs_case(rng)
     if kind.startswith('targs:'):
-        return gen_targs_case(rng, kind.split(':')[1])
+        return gen_targs_case(rng, kind.split(':')[1], idx=idx)
     if kind == 'flat':
         h = pk.choice(['T', 'pair', 'vec', 'opt', 'box', 'arr', 'vecpair', 'w', 'dup', 'ref'])
         blocks = gen_family(rng, h, rng.choice([2, 2, 3]), 0, tr=pk.choice(['D', 'D2', 'Dp', 'Dp<u8>', 'Dc<1>', 'Dc<2>']))
